@@ -1,11 +1,13 @@
 (* C38 — Secret key material comes from a secure random source.
    Property theorems only; re-checked against the table regenerated from the
    source (gen/C38_uses.v) on every run. *)
-From Coq Require Import List PArith Bool.
+From Coq Require Import List PArith NArith Bool.
 From ELA Require Import lib.Graph proof.Graph gen.C38_uses proof.C38_Static.
 Import ListNotations.
 
-(* No function of the key-material packages (account, crypto, crypto/ecies,
+(* [bad] = every function, method and variable of math/rand, plus a node for
+   "crypto/rand.Reader.Read called without io.ReadFull".
+   No function of the key-material packages (account, crypto, crypto/ecies,
    dpos/account: keystore master key and IV, ECDSA key generation and signing,
    Schnorr nonces, ECIES), nor anything such a function can call through any
    chain of helpers in any package, is a math/rand function or method — a
@@ -31,9 +33,34 @@ Theorem C38_key_generators_use_crypto_rand :
 Proof. exact anchors_reach_secure. Qed.
 Print Assumptions C38_key_generators_use_crypto_rand.
 
+(* No clock or process-id reader (time.Now / Since / Until, os.Getpid) is
+   reachable from a key-material function, through helpers of any package
+   other than the logging packages; nor referenced by the wallet commands. *)
+Theorem C38_no_clock_in_key_paths :
+  forall s c, In s C38_uses.sources -> In c C38_uses.clock ->
+    ~ reachable (cut C38_uses.graph C38_uses.clock_barrier) s c.
+Proof. exact no_clock. Qed.
+Print Assumptions C38_no_clock_in_key_paths.
+
+Theorem C38_no_clock_in_wallet_key_commands :
+  forall f c, In f C38_uses.direct -> edge C38_uses.graph f c -> ~ In c C38_uses.clock.
+Proof. exact no_clock_direct. Qed.
+Print Assumptions C38_no_clock_in_wallet_key_commands.
+
+(* Every call on a key path that draws from crypto/rand and can fail has its
+   error propagated to the caller (0) or checked with an error branch that
+   does not continue into the normal path (1); the only exception (4) is the
+   classified public-randomness use. No error is ignored (3) or replaced by a
+   fallback (2). *)
+Theorem C38_random_source_errors_not_swallowed :
+  forall f k, In (f, k) C38_uses.rand_err_sites -> k = 0%N \/ k = 1%N \/ k = 4%N.
+Proof. exact rand_errors_handled. Qed.
+Print Assumptions C38_random_source_errors_not_swallowed.
+
 Example C38_static_nonvacuous :
   forallb (fun a => existsb (Pos.eqb (fst a)) C38_uses.sources) C38_uses.anchors = true
   /\ negb (Nat.eqb (length C38_uses.anchors) 0) = true
   /\ negb (Nat.eqb (length C38_uses.bad) 0) = true
-  /\ negb (Nat.eqb (length C38_uses.direct) 0) = true.
+  /\ negb (Nat.eqb (length C38_uses.direct) 0) = true
+  /\ negb (Nat.eqb (length C38_uses.rand_err_sites) 0) = true.
 Proof. exact static_nonvacuous. Qed.
